@@ -11,7 +11,11 @@ import (
 	"sync/atomic"
 	"time"
 
+	"github.com/krotik/ecal/interpreter"
+	"github.com/krotik/ecal/parser"
+	"github.com/krotik/ecal/scope"
 	"github.com/krotik/ecal/stdlib"
+	"github.com/krotik/ecal/util"
 
 	"verif/harness/core"
 	"verif/harness/sched"
@@ -316,6 +320,113 @@ func (h *harness) streamConc(ts []*target) {
 			h.violation("result-changed-concurrently", "a result list changed while another thread called a bridged function: "+b.(string), stream, i, jobs[0].tg, jobs[0].args, nil)
 		} else {
 			c.Nontrivial(core.Hash64(fmt.Sprintf("conc|%d", i)))
+		}
+	}
+}
+
+// streamComputed: ONE parsed call site pkg[fn](a0) is evaluated again and
+// again with another function name in fn (what a loop over function names, a
+// dispatching ECAL function or a sink driven by event state does). Every
+// evaluation must give what the function named THIS time gives.
+func (h *harness) streamComputed(ts []*target) {
+	c := h.c
+	byPkg := map[string][]*target{}
+	for _, tg := range ts {
+		if !tg.gofn.IsValid() || h.dead[tg.name] {
+			continue
+		}
+		t := tg.gofn.Type()
+		if t.NumIn() != 1 || t.IsVariadic() || !isNumericKind(t.In(0).Kind()) {
+			continue
+		}
+		i := strings.Index(tg.ecal, ".")
+		if i < 0 {
+			continue
+		}
+		byPkg[tg.ecal[:i]] = append(byPkg[tg.ecal[:i]], tg)
+	}
+	var pkgs []string
+	for p, l := range byPkg {
+		if len(l) >= 2 {
+			pkgs = append(pkgs, p)
+		}
+	}
+	if len(pkgs) == 0 {
+		return
+	}
+	sortStrings(pkgs)
+	erpOnce.Do(func() { sharedERP = interpreter.NewECALRuntimeProvider("c19", nil, util.NewMemoryLogger(10)) })
+	erp := sharedERP
+	n := c.Pick(1500, 60000)
+	const stream = "computed"
+	for i := 0; i < n; i++ {
+		if !c.Take(stream, i) {
+			continue
+		}
+		r := c.Rng(stream, i)
+		pkg := pkgs[r.Intn(len(pkgs))]
+		cands := byPkg[pkg]
+		src := pkg + "[fn](a0)"
+		var ast *parser.ASTNode
+		var perr error
+		core.Guard(func() {
+			if ast, perr = parser.ParseWithRuntime("c19", src, erp); perr == nil {
+				perr = ast.Runtime.Validate()
+			}
+		})
+		if perr != nil || ast == nil {
+			c.Inconclusive("computed call site does not parse: "+fmt.Sprint(perr), stream, i, nil)
+			continue
+		}
+		rounds := r.Range(3, 7)
+		for k := 0; k < rounds; k++ {
+			tg := cands[r.Intn(len(cands))]
+			x := numbers[r.Intn(len(numbers))]
+			args := []interface{}{x}
+			if slowOrder(tg.name, args) {
+				continue
+			}
+			fn := tg.ecal[len(pkg)+1:]
+			vs := scope.NewScope(scope.GlobalScope)
+			vs.SetValue("fn", fn)
+			vs.SetValue("a0", x)
+			var val interface{}
+			var err error
+			key, msg, panicked := core.Guard(func() {
+				val, err = ast.Runtime.Eval(vs, make(map[string]interface{}), erp.NewThreadID())
+			})
+			c.AddEvals(1)
+			if panicked {
+				h.violation(key, "panic while calling a bridged function through a computed member access", stream, i, tg, args, map[string]interface{}{"source": src, "fn": fn, "panic": msg})
+				break
+			}
+			dret, derr, _, _, dpanicked := callAdapter(tg, args)
+			if dpanicked {
+				break
+			}
+			switch {
+			case (err == nil) != (derr == nil):
+				h.violation("computed-call:error-differs", fmt.Sprintf("evaluation number %d of the call site %s with fn=%q does not agree with calling %s directly (error on one side only)", k+1, src, fn, tg.name), stream, i, tg, args,
+					map[string]interface{}{"source": src, "fn": fn, "round": k + 1, "ecal": fmt.Sprint(val, " / ", err), "direct": fmt.Sprint(show(dret), " / ", derr)})
+				k = rounds
+			case err == nil && !same(val, dret):
+				h.violation("computed-call:other-function", fmt.Sprintf("evaluation number %d of the call site %s with fn=%q returns %s, the function named gives %s", k+1, src, fn, show(val), show(dret)), stream, i, tg, args,
+					map[string]interface{}{"source": src, "fn": fn, "round": k + 1})
+				k = rounds
+			default:
+				c.Event("computed.agrees", 1)
+				if k > 0 {
+					c.Nontrivial(core.Hash64(fmt.Sprintf("computed|%d|%d", i, k)))
+				}
+			}
+		}
+	}
+}
+
+func sortStrings(a []string) {
+	for i := 1; i < len(a); i++ {
+		for j := i; j > 0 && a[j] < a[j-1]; j-- {
+			a[j], a[j-1] = a[j-1], a[j]
 		}
 	}
 }
